@@ -19,6 +19,36 @@ fn refresh_ok(w: &mut World, r: usize) -> bool {
 }
 
 impl Probe for ConvergeProbe {
+    /// a replica that has just travelled in time has loaded its whole storage (it applies only the chosen part):
+    /// another replica that melds from it receives every item that storage holds
+    fn on_transition(&self, sc: &Scenario, hist: &[Op], op: &Op, _pre: &World, out: &OpOut, post: &World, cx: &mut Cx) {
+        let Op::Travel(r, _) = op else { return };
+        if !out.is_ok() || post.any_dead() {
+            return;
+        }
+        let mut h = hist.to_vec();
+        h.push(op.clone());
+        for s in 0..sc.nrep {
+            if s == *r {
+                continue;
+            }
+            let mut w = sc.build(&h);
+            let o = w.apply(&Op::Meld(s, *r));
+            if !o.is_ok() {
+                continue;
+            }
+            cx.count("meld_from_a_travelled_source");
+            let (src, tgt) = (w.reps[*r].store.snapshot(), w.reps[s].store.snapshot());
+            // items that are intact by name (what meld verifies) must all have arrived
+            let missing: Vec<&String> = src.iter().filter(|(k, v)| crate::props::c11::check_item(k, v).is_none() && !tgt.contains_key(*k)).map(|(k, _)| k).collect();
+            if !missing.is_empty() {
+                let mut h2 = h.clone();
+                h2.push(Op::Meld(s, *r));
+                cx.violation("C01", "C01:meld-from-a-travelled-replica-leaves-items-behind", sc, &h2, json!({"source": r, "target": s, "missing": missing, "meld": o.text()}));
+                return;
+            }
+        }
+    }
     fn on_state(&self, sc: &Scenario, hist: &[Op], cx: &mut Cx) {
         let w = sc.build(hist);
         if w.any_dead() {
